@@ -926,6 +926,12 @@ class Tr:
 
     def mcall(self, e, env, expect):
         recv, name, args = e[1], e[2], e[3]
+        rr = recv
+        while rr[0] in ('paren', 'ref'): rr = rr[1]
+        if rr[0] == 'range' and name == 'contains' and rr[1] is not None and rr[2] is not None:
+            lo, tl = self.ex(rr[1], env); hi, th = self.ex(rr[2], env)
+            a, _ = self.ex(args[0], env, tl if tl in INT_TYPES else (th if th in INT_TYPES else None))
+            return f'(decide ({lo} ≤ {a}) && decide ({a} {"≤" if rr[3] else "<"} {hi}))', 'bool'
         rl = self.range_lit(recv, env)
         if rl is not None and name in ('contains', 'start', 'end'):
             lo, hi, et = rl
@@ -1120,6 +1126,15 @@ class Tr:
                 return f'(let {v} := {s}; {r})', rt
             if pat[0] == 'pwild':
                 return self.stmts(rest, env, expect)
+            if pat[0] == 'ptuple':
+                s, t = self.ex(e, env)
+                if not (isinstance(t, tuple) and t[0] in ('tuple', 'range') and (t[0] == 'range' or len(t[1]) == len(pat[1]))):
+                    raise TranslateError('destructuring a non-tuple')
+                env2 = self.fork(env); names = []
+                for i, n in enumerate(pat[1]):
+                    v = self.fresh(n, env2); env2['vars'][n] = (v, t[1][i] if t[0] == 'tuple' else t[1]); names.append(v)
+                r, rt = self.stmts(rest, env2, expect)
+                return f'(let ({", ".join(names)}) := {s}; {r})', rt
             raise TranslateError('let pattern')
         if st[0] == 'assign':
             tgt, op, e = st[1], st[2], st[3]
